@@ -1,0 +1,60 @@
+//go:build verif
+
+// Contracts for package livesql, read by /verif/engine (govc). Comment-only.
+package livesql
+
+//@ guarded_by dbTracker.mu: resources
+
+// shouldInvalidate: a table mismatch never invalidates; an undecodable update always does; otherwise the
+// resource is invalidated iff some delta's before or after image passes the filter test (anyTrue), and a
+// negative answer is only given after every delta was tested (ntested).
+//@ func dbResource.shouldInvalidate
+//@   requires r != nil && update != nil
+//@   keeps update, dbResource, []delta
+//@   ghost anyTrue bool
+//@   ghost ntested int
+//@   entry ghost anyTrue = false
+//@   entry ghost ntested = 0
+//@   call Test#1 assert arg1 == update.deltas[rangeindex+1].before
+//@   call Test#2 assert arg1 == update.deltas[rangeindex+1].after
+//@   call Test#1 ghost ntested = ntested + 1
+//@   call Test ghost anyTrue = anyTrue || ret0
+//@   ensures old(r.table != update.table) ==> !result
+//@   ensures old(r.table == update.table && update.err != nil) ==> result
+//@   ensures old(r.table == update.table && update.err == nil) ==> (result <==> anyTrue) && (!result ==> ntested == old(len(update.deltas)))
+//@   loop 1 invariant -1 <= rangeindex && rangeindex < len(update.deltas) && !anyTrue && ntested == rangeindex+1
+//@   loop 1 decreases len(update.deltas) - rangeindex
+
+// processBinlog: every registered resource is consulted, and invalidated exactly when it says so.
+//@ func dbTracker.processBinlog
+//@   requires t != nil && update != nil
+//@   requires forall q *dbResource :: (q in t.resources) ==> q != nil      // only registerDependency adds entries, always a fresh resource
+//@   keeps dbTracker, map[*dbResource]struct{}, dbResource
+//@   ghost owed bool                       // the resource just consulted asked to be invalidated and has not been yet
+//@   ghost last *dbResource
+//@   entry ghost owed = false
+//@   call dbResource.shouldInvalidate assert arg1 == update
+//@   call dbResource.shouldInvalidate ghost owed = ret0
+//@   call dbResource.shouldInvalidate ghost last = arg0
+//@   call Resource.Invalidate assert owed && arg0 == last.resource
+//@   call Resource.Invalidate ghost owed = false
+//@   loop 1 invariant !owed
+//@   ensures !owed
+
+// The dependency is registered before the query runs (no update between the two can be missed).
+//@ func LiveDB.query$1
+//@   ghost registered bool
+//@   entry ghost registered = false
+//@   call dbTracker.registerDependency ghost registered = true
+//@   call DB.BaseQuery assert registered
+
+// RunPollLoop: a rows event of this database whose decoding failed (and was logged) still delivers an update
+// for its table with err set, so that every live query on the table is invalidated.
+//@ func Binlog.RunPollLoop
+//@   ghost failed bool
+//@   entry ghost failed = false
+//@   call Binlog.parseBinlogRowsEvent ghost failed = false
+//@   call Error#2 ghost failed = true
+//@   call send assert failed ==> arg0.update != nil && arg0.update.err != nil
+//@   call send ghost failed = false
+//@   loop 1 invariant !failed
